@@ -30,4 +30,8 @@ def run(ctx):
     lattice.lattice_stage(ctx, "ms2", plan2, {"panic", "snap", "table", "verts", "search", "winding"}, cmd="c01-mesh2",
                           judge="lattice/Mesh2Judge", sitename="MarchingSquares")
     lattice.dc_stage(ctx, "dc", pland, {"panic", "incube", "quads", "orient", "interior"})
+    import solids
+    solids.judge_stage(ctx, "bisect", ["c02-bisect"], {"panic", "interior", "bracket"}, judge="lattice/BisectJudge",
+                       keyfn=lambda rec, clause: "%s:%s:%s" % (rec["site"], clause,
+                                                              "converged" if rec["count"] >= 48 or rec["far"] else "coarse"))
     ctx.extra["exhaustive"] = True
